@@ -191,6 +191,39 @@ def rel_close(a, b, rtol):
 
 # --------------------------------------------------------------------------- the run
 
+def purity_and_order(ctx, fp, fz, tag, Ptop):
+    """directed probes that do not depend on the rest of the run (also the first thing the failing-input search does)"""
+    SP = NAMES[0]
+    # the caller's arrays are inputs only: unchanged after the call (end cases included), read-only arrays accepted; and the
+    # value of an element does not depend on which element comes first (profiles listed top-down start with +inf / 0 Pa)
+    za = np.array([np.inf, 0.0, 5.0, 50.0, 90.0, np.inf, 11.0, 120.0])
+    pa = np.array([0.0, 101325.0, 54048.0, 79.0, 0.1, 0.0, Ptop, 1e-3])
+    for nm_, f_, arr in (("altitudes", fp, za), ("pressures", fz, pa)):
+        for order in ("as listed", "reversed", "sorted"):
+            a_ = arr if order == "as listed" else (arr[::-1].copy() if order == "reversed" else np.sort(arr))
+            keep = a_.copy()
+            with np.errstate(all="ignore"):
+                out_ = np.asarray(f_(a_))
+                single = np.array([float(f_(float(x_))) for x_ in keep])
+            ctx.case(("purity", tag, nm_, order), None)
+            ctx.count("purity_and_order_calls")
+            if not same_bits(a_, keep):
+                ctx.violation(SP, "mutates-input", f"the caller's array of {nm_} is modified by the call",
+                              {"copy": tag, "argument": nm_, "before": keep.tolist(), "after": np.asarray(a_).tolist()})
+                break
+            if out_.dtype != np.float64 or not same_bits(out_.astype(np.float64), single):
+                k_ = int(np.nonzero(out_.astype(np.float64) != single)[0][0]) if out_.shape == single.shape and (out_.astype(np.float64) != single).any() else 0
+                ctx.violation(SP, "array-differs-from-scalar", f"the value of an element of an array of {nm_} ({order}; dtype of the result {out_.dtype}) differs from the scalar call",
+                              {"copy": tag, "argument": nm_, "order": order, "input": keep.tolist(), "index": k_, "array": float(out_[k_]), "scalar": float(single[k_]), "result_dtype": str(out_.dtype)})
+                break
+        ro = arr.copy(); ro.setflags(write=False)
+        try:
+            with np.errstate(all="ignore"):
+                f_(ro)
+        except Exception as ex:  # noqa
+            ctx.violation(SP, "mutates-input", f"a read-only array of {nm_} is rejected: {type(ex).__name__}: {str(ex)[:80]}", {"copy": tag, "argument": nm_})
+
+
 def run(ctx: Ctx):
     from nuspacesim.simulation.atmosphere import pressure as A
     from nuspacesim.simulation.eas_optical import atmospheric_models as B
@@ -400,6 +433,7 @@ def run(ctx: Ctx):
                           {"copy": tag, "P(inf)": float(p_inf), "z(0)": float(z_zero), "mix_p": mix_p.tolist(), "mix_z": mix_z.tolist()})
         if not (float(fz(fp(np.inf))) == np.inf and float(fp(fz(0.0))) == 0.0):
             ctx.violation(SP, "end-cases", "end cases do not round-trip", {"copy": tag})
+        purity_and_order(ctx, fp, fz, tag, Ptop)
         # the same values whatever numpy floating-point error state the caller has in force (a caller that turns IEEE flags
         # into exceptions — np.errstate(all='raise') — must get the same numbers, end cases included)
         sweep_z = np.concatenate([[0.0, np.inf, 120.0], rng.uniform(0.0, 120.0, 200)])
@@ -542,7 +576,19 @@ def run(ctx: Ctx):
 
 def search(ctx: Ctx):
     """Failing-input search: the oracle clauses in run() already ran on the real code; widen the streams."""
-    if ctx.tier != "thorough":
+    try:
+        from nuspacesim.simulation.atmosphere import pressure as A_
+        from nuspacesim.simulation.eas_optical import atmospheric_models as B_
+        with np.errstate(all="ignore"):
+            ptop = float(A_.us_std_atm_pressure_from_altitude(120.0))
+        for mod_, tag in ((A_, "atmosphere"), (B_, "eas_optical")):
+            try:
+                purity_and_order(ctx, mod_.us_std_atm_pressure_from_altitude, mod_.us_std_atm_altitude_from_pressure, tag, ptop)
+            except Exception as ex:  # noqa
+                ctx.violation(NAMES[0], "raises", f"{type(ex).__name__}: {str(ex)[:120]} on arrays with +inf / 0 Pa entries", {"copy": tag})
+    except ImportError:
+        pass
+    if ctx.tier != "thorough" and not ctx.violations:
         ctx.tier = "thorough"
         run(ctx)
 
